@@ -959,3 +959,29 @@ func (t *writelogTarget) Canary() string {
 }
 
 var _ = binary.LittleEndian
+
+// --- deterministic series ------------------------------------------------------------
+
+func (t *nodeTarget) FixedPlans(rng *rand.Rand) []fixedPlan {
+	// Exec runs every decoder on every input, so each distinct encoding is enumerated once.
+	seen := map[string]bool{}
+	var out []fixedPlan
+	for _, s := range t.seeds {
+		if seen[string(s.Data)] {
+			continue
+		}
+		seen[string(s.Data)] = true
+		// The 8 KiB labels of the maximum-depth internal nodes are opaque bytes: beyond 2 KiB only
+		// the first KiB, the neighbourhood of the length fields and a sample are enumerated.
+		out = append(out, newFixedPlanLimits(rng, s, s.Aux, "", nil, 2048, 1024))
+	}
+	return out
+}
+
+func (t *proofTarget) FixedPlans(rng *rand.Rand) []fixedPlan {
+	return plainPlans(rng, t.seeds, func(_ int, s *Seed) string { return s.Aux })
+}
+
+func (t *writelogTarget) FixedPlans(rng *rand.Rand) []fixedPlan {
+	return plainPlans(rng, t.seeds, func(i int, _ *Seed) string { return fmt.Sprintf("s=%d;db=%s", i, []string{"b", "p"}[i%2]) })
+}
